@@ -126,7 +126,10 @@ ssize_t write(int fd, const void *buf, size_t n) {
     char p[4096];
     if (!in_hook && g_hook && fd_get_path(fd, p, sizeof p)) {
         int e = call_hook(K_WRITE, p, 0, (long)n, fd);
-        if (e) { errno = e; return -1; }
+        if (e > 0) { errno = e; return -1; }
+        /* a negative answer asks for a SHORT write: the kernel may accept fewer bytes than offered (signals, quotas,
+           pipes, nearly full devices); the caller has to continue with the rest */
+        if (e < 0 && n > 1) n = n / 2;
     }
     return real_write(fd, buf, n);
 }
